@@ -1,6 +1,8 @@
 """C09 -- cache keys are canonical.  Tie: hashing.GetTargetChangeHash on real package directories
-under both algorithms and two workspace roots vs the byte streams predicted by HashKey.v (hashed
-with grog's own HashString); oracle: equal/unequal key on generated pairs of states."""
+under both algorithms and two workspace roots vs the framed byte streams predicted by HashKey.v
+(the model is handed grog's own hash of every file content as its digest function and the
+predicted streams are hashed with grog's own HashString); oracle: equal/unequal key on generated
+pairs of states -- every pair of states that are not the same build state must differ."""
 import copy, json, os
 import vlib
 from vlib import hx
@@ -35,6 +37,19 @@ def rand_state(r, adversarial=False):
             st["outs"].append(("file", "a,b"))
         if r.chance(1, 3):
             st["fp"]["a=b"] = "c"
+        # bytes the framed encoding itself gives a meaning to: NUL (escape / terminator), 0x01, the list markers 0x02 / 0x03
+        fr = ["\x00", "\x00\x00", "\x00\x01", "\x02", "\x03", "\x00\x00\x02", "\x00\x00\x03", "a"]
+        if r.chance(1, 3):
+            st["cmd"] += "".join(r.choice(fr) for _ in range(1 + r.below(3)))
+        if r.chance(1, 4):
+            st["deps"].append("".join(r.choice(fr) for _ in range(1 + r.below(3))))
+        if r.chance(1, 4):
+            st["fp"]["".join(r.choice(fr) for _ in range(r.below(3)))] = "".join(r.choice(fr) for _ in range(r.below(3)))
+        if r.chance(1, 4):
+            st["outs"].append(("file", "o" + "".join(r.choice(fr) for _ in range(1 + r.below(2)))))
+        for p in st["ins"]:
+            if st["files"][p] is not None and r.chance(1, 4):
+                st["files"][p] += "".join(r.choice(fr) for _ in range(1 + r.below(3)))
     return st
 
 
@@ -46,6 +61,15 @@ def line(st, algo, rootid):
                       ",".join(hx(d) for d in st["deps"]),
                       ",".join("%s:%s" % (hx(k), hx(v)) for k, v in st["fp"].items()),
                       "1" if st["multi"] else "0"])
+
+
+def mline(st, algo, dig):
+    """The line for the model driver: every present file carries dig(content), the implementation's hash of its content
+    (the digest function the model is instantiated with)."""
+    files = ",".join("%s:%s" % (hx(p), "!" if c is None else "%s:%s" % (hx(c), hx(dig(c)))) for p, c in sorted(st["files"].items()))
+    f = line(st, algo, "r").split("\t")
+    f[7] = files
+    return "\t".join(f)
 
 
 def equiv(a, b):
@@ -96,12 +120,15 @@ def mutate(r, st):
 
 
 def collision_pairs():
+    """Regression corpus: one pair per collision class of the former unframed encoding (findings C09-F1..F4, fixed) and pairs
+    aimed at the framing itself (NUL / marker bytes inside elements).  Every pair must receive different keys."""
     base = {"pkg": "p", "name": "a", "cmd": "", "ins": [], "files": {}, "outs": [], "deps": [], "fp": {}, "multi": False}
 
     def S(**kw):
         s = copy.deepcopy(base); s.update(kw); return s
-    return [
+    res = [
         ("label|command", S(name="a", cmd="bc"), S(name="ab", cmd="c")),
+        ("package|name", S(pkg="a:b", name="c"), S(pkg="a", name="b:c")),
         ("command|inputs", S(cmd="a", ins=["bc"], files={"bc": "1"}), S(cmd="ab", ins=["c"], files={"c": "1"})),
         ("inputs|outputs", S(ins=["a"], files={"a": None}, outs=[("file", "b")]), S(ins=["afile::b"], files={"afile::b": None})),
         ("outputs|deps", S(outs=[("file", "x")], deps=[]), S(outs=[], deps=["file::x"])),
@@ -111,28 +138,25 @@ def collision_pairs():
         ("fingerprint k=v shift", S(fp={"a": "b=c"}), S(fp={"a=b": "c"})),
         ("file boundary", S(ins=["a", "b"], files={"a": "xy", "b": "z"}), S(ins=["a", "b"], files={"a": "x", "b": "yz"})),
         ("absent vs empty", S(ins=["a"], files={"a": None}), S(ins=["a"], files={"a": ""})),
-        ("alias dep leaves empty hash", S(deps=[""]), S(deps=[])),
-        ("two alias deps vs comma", S(deps=["", ""]), S(deps=[","])),
+        ("empty element vs no element", S(deps=[""]), S(deps=[])),
+        ("two empty elements vs comma", S(deps=["", ""]), S(deps=[","])),
+        ("platform vs multiplatform with the platform in the fingerprint", S(fp={"k": "v"}), S(fp={"k": "v", "lx/a64": ""}, multi=True)),
+        ("framing: terminator inside an element", S(deps=["a\x00\x00\x02b"]), S(deps=["a", "b"])),
+        ("framing: escape inside an element", S(deps=["a\x00\x01b"]), S(deps=["a\x00b"])),
+        ("framing: end marker inside an element", S(outs=[("file", "a\x00\x00\x03")], deps=[]), S(outs=[("file", "a")], deps=[])),
+        ("framing: command swallowing the input list", S(cmd="c\x00\x00\x02i\x00\x00\x03"), S(cmd="c", ins=["i"], files={"i": None})),
+        ("framing: fingerprint key swallowing the value", S(fp={"k\x00\x00v": ""}), S(fp={"k": "v"})),
+        ("file content vs file digest", S(ins=["a"], files={"a": "x\x00\x00b\x00\x00\x01"}), S(ins=["a", "b"], files={"a": "x", "b": ""})),
     ]
-
-
-def classify(a, b, ma, mb):
-    """Evaluate the guards of C09_single_change_sensitive on a colliding pair."""
-    ca, cb = ma[0].split(","), mb[0].split(",")
-    if ma[2] != "wf" or mb[2] != "wf":
-        return "undecodable-element"
-    if len(set(a["ins"])) != len(a["ins"]) or len(set(b["ins"])) != len(b["ins"]):
-        return "duplicate-input"
-    ndiff = sum(1 for x, y in zip(ca, cb) if x != y)
-    if ndiff >= 2:
-        return "multi-component"
-    if sorted(a["ins"]) == sorted(b["ins"]):
-        diff = [p for p in a["ins"] if a["files"].get(p) != b["files"].get(p)]
-        if any((a["files"].get(p) is None) != (b["files"].get(p) is None) for p in diff):
-            return "absent-vs-empty"
-        if len(diff) >= 2:
-            return "multi-file"
-    return None
+    path = os.path.join(vlib.VERIF, "corpus", "C09", "pairs.jsonl")
+    if os.path.exists(path):
+        for l in open(path):
+            if l.strip() and not l.startswith("#"):
+                c = json.loads(l)
+                for k in ("a", "b"):
+                    c[k]["outs"] = [tuple(o) for o in c[k]["outs"]]
+                res.append(("corpus:" + c["name"], c["a"], c["b"]))
+    return res
 
 
 def run(out, tier):
@@ -188,13 +212,7 @@ def run(out, tier):
     for x in range(len(tiny) - 1):
         pairs.append(("tiny", tiny[x], tiny[x + 1]))
 
-    # model: predicted byte streams
     drv = vlib.build_driver()
-    _, mout, merr = vlib.run_lines(drv, [line(s, "-", "r") for s in states])
-    if len(mout) != len(states):
-        raise RuntimeError("model driver failed: " + merr[-400:])
-    model = [m.split("\t") for m in mout]
-
     impl_ok = True
     try:
         h = vlib.build_harness("hashkey")
@@ -202,16 +220,31 @@ def run(out, tier):
         out.notes.append("inprocess_tie: unavailable (%s)" % str(e)[-500:])
         impl_ok = False
     keys = {}
+    model = {}
     tie_bad = []
+    n = len(states)
     if impl_ok:
+        # 1. the implementation's own digest of every file content: the digest function H of the model
+        contents = sorted({c for s in states for c in s["files"].values() if c is not None})
+        rc, res, err = vlib.run_lines(h, ["hash\t%s\t%s" % (algo, hx(c)) for algo in ALGOS for c in contents])
+        if rc != 0 or len(res) != len(ALGOS) * len(contents):
+            raise RuntimeError("hashkey harness failed rc=%s %s" % (rc, err[-500:]))
+        dig = {algo: {c: res[k * len(contents) + x].split("\t")[1] for x, c in enumerate(contents)} for k, algo in enumerate(ALGOS)}
+        # 2. the model: predicted byte streams (definition stream; file stream built from paths, presence and H content)
+        _, mout, merr = vlib.run_lines(drv, [mline(s, algo, dig[algo].__getitem__) for algo in ALGOS for s in states])
+        if len(mout) != len(ALGOS) * n:
+            raise RuntimeError("model driver failed: " + merr[-400:])
+        for k, algo in enumerate(ALGOS):
+            for i in range(n):
+                model[(algo, i)] = mout[k * n + i].split("\t")
+        # 3. the implementation: keys, and its hash of the predicted streams
         lines = []
         for algo in ALGOS:
             for i, s in enumerate(states):
                 lines.append(line(s, algo, "rootA"))
             for i, s in enumerate(states):
-                comps = [bytes.fromhex(c) if c != "-" else b"" for c in model[i][0].split(",")]
-                lines.append("hash\t%s\t%s" % (algo, hx(b"".join(comps))))
-                lines.append("hash\t%s\t%s" % (algo, model[i][1] if model[i][1] != "none" else "-"))
+                lines.append("hash\t%s\t%s" % (algo, model[(algo, i)][0]))
+                lines.append("hash\t%s\t%s" % (algo, model[(algo, i)][1] if model[(algo, i)][1] != "none" else "-"))
         # location independence: a second workspace root for a sample
         loc = list(range(0, len(states), 7))
         for i in loc:
@@ -219,7 +252,6 @@ def run(out, tier):
         rc, res, err = vlib.run_lines(h, lines)
         if rc != 0 or len(res) != len(lines):
             raise RuntimeError("hashkey harness failed rc=%s %s" % (rc, err[-500:]))
-        n = len(states)
         pos = 0
         for algo in ALGOS:
             ks = res[pos:pos + n]; pos += n
@@ -228,7 +260,7 @@ def run(out, tier):
                 keys[(algo, i)] = ks[i]
                 if ks[i].startswith("key\t"):
                     want = hs[2 * i].split("\t")[1]
-                    if model[i][1] != "none":
+                    if model[(algo, i)][1] != "none":
                         want += "_" + hs[2 * i + 1].split("\t")[1]
                     if ks[i].split("\t")[1] != want:
                         tie_bad.append((algo, i))
@@ -237,8 +269,7 @@ def run(out, tier):
                 out.violation("the key depends on the workspace location: %s vs %s" % (res[pos + j], keys[("xxh3", i)]),
                               {"state": states[i], "roots": ["rootA", "another/deeper/rootB"]})
 
-    findings = {f["class"]: f for f in vlib.known_findings("C09")}
-    stats = {"pairs": len(pairs), "equal_expected": 0, "differ_expected": 0, "collisions_known": 0, "errors": 0}
+    stats = {"pairs": len(pairs), "equal_expected": 0, "differ_expected": 0, "collisions": 0, "errors": 0}
     nontriv = set()
     samples = []
     if impl_ok:
@@ -258,36 +289,32 @@ def run(out, tier):
                     out.violation("equal build states receive different keys (%s)" % kind, {"a": a, "b": b, "keys_a": ka, "keys_b": kb})
             else:
                 stats["differ_expected"] += 1
+                # C09_injective: with an injective digest, states that are not the same build state never share a key.  A pair that
+                # shares its key under BOTH digest functions is an encoding collision (no class of them is tolerated any more:
+                # the former classes C09-F1..F4 are fixed and their witnesses are part of the regression pairs)
                 if eq:
-                    cls = classify(a, b, model[i], model[j])
-                    # a collision belongs to a known class only if the MODEL's encoding explains it: the concatenated definition
-                    # stream and the concatenated file-content stream are literally equal for the two states (C09: equal keys imply
-                    # equal hashed byte streams).  Equal keys on states whose predicted streams differ are a different defect.
-                    cat = lambda m: ("".join(c for c in m[0].split(",") if c != "-"), m[1])
-                    explained = cat(model[i]) == cat(model[j])
-                    if cls and cls in findings and explained:
-                        stats["collisions_known"] += 1
-                        out.known(findings[cls]["id"], "class=%s e.g. %s: %s vs %s share key %s" % (
-                            cls, kind, json.dumps(a, default=str), json.dumps(b, default=str), ka[0].split("\t")[1]))
-                    else:
-                        out.violation("different build states share one key under both algorithms (%s; class %s%s)" % (
-                            kind, cls, "" if explained else "; the byte streams the model predicts differ, so the unframed encoding does not explain it"),
-                                      {"a": a, "b": b, "key": ka, "class": cls, "explained_by_model_encoding": explained})
+                    stats["collisions"] += 1
+                    same_streams = all(model[(al, i)] == model[(al, j)] for al in ALGOS)
+                    out.violation("different build states share one key under both algorithms (%s)%s" % (
+                        kind, "; the model predicts equal byte streams for them: model and oracle disagree" if same_streams else
+                        "; the framed byte streams the model predicts for them differ"),
+                                  {"a": a, "b": b, "key": ka, "model_streams_equal": same_streams})
             if len(samples) < 3 and kind.startswith(("mut", "collision")):
                 samples.append({"kind": kind, "a": a, "b": b, "keys_equal": eq, "states_equivalent": eqv})
         if tie_bad and not out.violations:
             algo, i = tie_bad[0]
             out.violation("correspondence HashKey.change_key ~ hashing.GetTargetChangeHash broke on %d states: the code no longer hashes the "
                           "predicted byte stream; no pair oracle of C09 fails" % len(tie_bad),
-                          {"correspondence": "HashKey.comps/encode_files vs hashing.GetTargetChangeHash (bytes fed to the hasher)",
-                           "state": states[i], "algo": algo, "impl_key": keys[(algo, i)], "model_comps": model[i]}, no_input=True)
+                          {"correspondence": "HashKey.encode_def/encode_files vs hashing.GetTargetChangeHash (bytes fed to the hasher)",
+                           "state": states[i], "algo": algo, "impl_key": keys[(algo, i)], "model_streams": model[(algo, i)]}, no_input=True)
     out.cov.update({
         "evaluations": len(states) * (len(ALGOS) if impl_ok else 0) + len(pairs),
         "distinct_nontrivial": len(nontriv),
-        "rule": "random target states (label, command, 0-3 inputs with contents or absent, outputs, dependency hashes incl. the empty "
-                "hash of alias in-edges, fingerprints, multiplatform flag) on real package directories; pairs: all-list permutation "
-                "(must be equal), single-component / single-file mutation (must differ), boundary-shift collision classes, independent "
-                "draws from a tiny domain; non-trivial = the two states of a pair differ in at least one component or order",
+        "rule": "random target states (label, command, 0-3 inputs with contents or absent, outputs, dependency contributions incl. "
+                "empty ones, fingerprints, multiplatform flag; every fifth state with separator / NUL / marker bytes inside elements) on "
+                "real package directories; pairs: all-list permutation (must be equal), single-component / single-file mutation, the "
+                "regression pairs of the former collision classes and of the framing, independent draws from a tiny domain (all must "
+                "differ unless they are the same build state); non-trivial = the two states of a pair differ in at least one component or order",
         "samples": samples,
         "traces_validated_against_impl": len(states) * len(ALGOS) if impl_ok else 0,
         "byte_stream_mismatches": len(tie_bad),
